@@ -2,7 +2,7 @@
 (***************************************************************************)
 (* C11: misuse fails loudly.  One call of a derivative object as the       *)
 (* sequence of guard points the code passes:                               *)
-(*   Start -> GetSteps -> EvalFirst -> Stencil -> SizeCheck -> RuleCheck   *)
+(*   New -> Configure -> GetSteps -> EvalFirst -> Stencil -> SizeCheck -> RuleCheck   *)
 (*         -> Extrapolate -> Return                                        *)
 (* with a ValueError exit at each guard.  The REQUIREMENT is the predicate *)
 (* Misuse(c): a behaviour of a misused configuration must never reach      *)
@@ -26,7 +26,8 @@ Configs ==
    fc : BOOLEAN,          \* f(x) is complex-valued
    vec : BOOLEAN,         \* f returns one value per input element
    few : BOOLEAN,         \* the user generator yields fewer steps than the rule needs
-   dim : 1..3, full : BOOLEAN]
+   dim : 1..3, full : BOOLEAN,
+   via : {"ctor", "setter"}]   \* the method was given to the constructor, or assigned to obj.method afterwards
 
 Valid(k) == /\ (k.cls \in {"Gradient", "Jacobian"} => k.n = 1)
             /\ (k.cls \in {"Hessdiag", "Hessian"} => k.n = 2)
@@ -44,7 +45,11 @@ Misuse(k) == MisuseComplex(k) \/ MisuseMultiN(k) \/ MisuseSize(k) \/ MisuseSteps
 \* ---- the pipeline as the code runs it
 HasEvalFirstGuard(k) == ~(JacobianSkipsEvalFirst /\ k.cls \in {"Gradient", "Jacobian"})
 
-Init == c \in {k \in Configs : Valid(k)} /\ pc = "Start"
+Init == c \in {k \in Configs : Valid(k)} /\ pc = "New"
+
+\* construction; with via = "setter" the object is built with another method and obj.method is assigned:
+\* every guard reads the CURRENT method, so the two ways are indistinguishable from here on
+Configure == pc = "New" /\ pc' = "Start" /\ UNCHANGED c
 
 GetSteps == pc = "Start" /\ pc' = "EvalFirst" /\ UNCHANGED c
 EvalFirst ==
@@ -59,7 +64,7 @@ SizeCheck ==    \* _vstack: f_del.size == h.size
 RuleCheck ==    \* _apply: n_r < num_steps
   /\ pc = "RuleCheck" /\ UNCHANGED c
   /\ pc' = IF MisuseSteps(c) THEN "ValueError" ELSE "Return"
-Next == GetSteps \/ EvalFirst \/ Stencil \/ SizeCheck \/ RuleCheck
+Next == Configure \/ GetSteps \/ EvalFirst \/ Stencil \/ SizeCheck \/ RuleCheck
 Spec == Init /\ [][Next]_vars
 
 NoNumbersOnMisuse == pc = "Return" => ~Misuse(c)
